@@ -31,6 +31,7 @@ pub mod c29;
 pub mod c30;
 pub mod c31;
 pub mod c32;
+pub mod c33;
 pub mod c34;
 pub mod c36;
 
@@ -68,6 +69,7 @@ pub fn run(ctx: &Ctx, id: &str) -> bool {
         "C30" => c30::run(ctx),
         "C31" => c31::run(ctx),
         "C32" => c32::run(ctx),
+        "C33" => c33::run(ctx),
         "C34" => c34::run(ctx),
         "C36" => c36::run(ctx),
         _ => return false,
